@@ -1,6 +1,6 @@
 """S — saved-state bookkeeping; U — the edit log (DESIGN.md 3.2, 3.3)."""
 from ..facts import AnalysisBroken, walk, key, cval
-from ..util import (stores, lv_field, is_call, calls_in, refs, fact_list,
+from ..util import (resolve_local, stores, lv_field, is_call, calls_in, refs, fact_list,
                     flatten_and, negate_truth, strip_casts)
 
 # field -> (functions allowed to store the field itself, functions allowed to store
@@ -149,85 +149,90 @@ def rule_S1(ctx):
                           "a path from the store of useq_zero to the return passes no "
                           "lbuf_modified: edits of the same command would share the saved number",
                           sv.loc(z))
-    # the clear path stores useq_last from useq before useq_zero is derived
-    # lbuf_modified returns a disequality with useq_zero on one side and the
-    # same expression that lbuf_saved stores on the other
-    md = prog.func("lbuf_modified")
-    rets = md.cfg.return_nodes()
-    pm = {p["name"]: "$%d" % i for i, p in enumerate(md.params)}
-    ps = {p["name"]: "$%d" % i for i, p in enumerate(sv.params)}
-    zrhs = None
+    # The number recorded at a save and the number the dirty test compares with it are both "the
+    # sequence number of the undo position": the log entry below the cursor when there is one,
+    # else the number recorded when the log was cleared.  Judged per path with substitution, a
+    # helper (lbuf_seq) inlined by its exit summaries, so ?:, if/else, locals and helpers are all
+    # the same.
+    from ..bounds import path_states
+    from ..lin import Lin, prove_le, PROVEN
+
+    def seq_helper(g0):
+        def inl(call):
+            h = prog.resolve(g0, call["fn"]) if call.get("fn") else None
+            if h is None or h.file != g0.file or h is g0 or list(stores(h.body)) or len(list(h.walk())) > 80:
+                return None
+            return h
+        return inl
+
+    def seq_cases(g, target, expr, what):
+        """[(verdict, text)] for the value of expr at target over all paths"""
+        P = g.params[0]["name"]
+        HU, UL = "%s->hist_u" % P, "%s->useq_last" % P
+        out = []
+        try:
+            sts = path_states(g, target["id"], inline=seq_helper(g), init_hyps=[Lin({HU: 1})])
+        except OverflowError:
+            return [("und", "too many paths")]
+        for subst, hyps, items in sts:
+            lin_ = subst["__linfn__"]
+            v = lin_(strip_casts(expr))
+            hu = subst.get(HU, Lin({HU: 1}))
+            ul = subst.get(UL, Lin({UL: 1}))
+            if v is None or hu is None:
+                out.append(("und", "value of %s not linear" % key(expr)))
+                continue
+            from ..lin import feasible
+            for has in (True, False):
+                h2 = hyps + ([hu - Lin(k=1)] if has else [hu.scale(-1)])
+                if not feasible(h2):
+                    continue
+                if has:
+                    atoms = [a_ for a_ in v.c if ".seq" in a_ and "hist[" in a_ and "hist_u" in a_ and "-1" in a_.replace(" ", "")]
+                    if len(v.c) == 1 and len(atoms) == 1 and v.c[atoms[0]] == 1 and v.k == 0:
+                        out.append(("ok", "entry below the cursor"))
+                    else:
+                        out.append(("bad", "with an entry below the undo cursor %s is %s, not hist[hist_u - 1].seq" % (what, v)))
+                else:
+                    if ul is not None and prove_le(v, ul, h2) == PROVEN and prove_le(ul, v, h2) == PROVEN:
+                        out.append(("ok", "number recorded when the log was cleared"))
+                    else:
+                        out.append(("bad", "with no entry below the undo cursor %s is %s, not useq_last" % (what, v)))
+        return out
+
+    def judge(fname, g, node, cases, okmsg):
+        if not cases:
+            ctx.broken("%s: no path to the %s" % (fname, okmsg))
+        elif any(c_[0] == "bad" for c_ in cases):
+            ctx.violation(fname, "dirty test" if fname == "lbuf_modified" else "seq of undo position",
+                          next(c_[1] for c_ in cases if c_[0] == "bad"), g.loc(node))
+        elif any(c_[0] == "und" for c_ in cases):
+            ctx.inconclusive(fname, "seq of undo position", next(c_[1] for c_ in cases if c_[0] == "und"), g.loc(node))
+        else:
+            ctx.ok(fname, "%s = seq of the undo position on %d paths" % (okmsg, len(cases)), loc=g.loc(node))
+
     for n, lv, op, rhs in stores(sv.body):
         if op == "=" and lv_field(lv) and lv_field(lv)[1] == "useq_zero":
-            zrhs = key(rhs, ps)
-    for r in rets:
-        e = r.get("e")
-        good = False
-        if e is not None and e["k"] == "bin" and e["op"] == "!=":
-            sides = [e["l"], e["r"]]
-            for a, b in (sides, sides[::-1]):
-                if a["k"] == "member" and a["field"] == "useq_zero" and key(b, pm) == zrhs:
-                    good = True
-        if good:
-            ctx.ok("lbuf_modified", "dirty test = (current seq != saved seq)", loc=md.loc(r))
-        else:
-            ctx.violation("lbuf_modified", "dirty test",
-                          "the return value is not `<what lbuf_saved records> != useq_zero` "
-                          "(found %s, saved expression %s)" % (key(e, pm), zrhs), md.loc(r))
-    # lbuf_seq: the sequence number of the undo position -- the log entry below the cursor when
-    # there is one, else the number recorded when the log was cleared; judged per path so that
-    # `?:`, if/else and early returns are all the same
-    if prog.has_func("lbuf_seq"):
-        from ..cfg import paths_to
-        from ..util import path_consistent, nullness
-        sq = prog.func("lbuf_seq")
-        pq = {p["name"]: "$0" for p in sq.params}
-        n_paths = 0
-        for r in sq.cfg.return_nodes():
-            verdicts = set()
-            for items in paths_to(sq.cfg, sq.cfg.entry, r["id"]):
-                if not path_consistent(sq, items):
-                    continue
-                n_paths += 1
-                byid = {x[1]: x[2] for x in items if x[0] == "br"}
-                e = strip_casts(r.get("e"))
-                while e is not None and e["k"] == "cond" and strip_casts(e["c"])["id"] in byid:
-                    e = strip_casts(e["t"] if byid[strip_casts(e["c"])["id"]] else e["f"])
-                has = None
-                for x in items:
-                    if x[0] != "br":
-                        continue
-                    nn = nullness(sq.nodes[x[1]], x[2])
-                    if nn is not None and key(nn[0], pq) == "$0->hist_u":
-                        has = not nn[1]
-                    c_, t_ = sq.nodes[x[1]], x[2]
-                    if c_["k"] == "bin" and c_["op"] in (">", "<=") and key(c_["l"], pq) == "$0->hist_u" \
-                            and cval(c_["r"]) == 0:
-                        has = (c_["op"] == ">") == t_
-                k = key(e, pq) if e is not None else None
-                allowed_ = ("$0->hist[($0->hist_u-1)].seq", "$0->useq_last")
-                if k not in allowed_ and e is not None and e["k"] in ("member", "int"):
-                    verdicts.add(("bad", k))
-                elif has is None:
-                    verdicts.add(("und", k))
-                elif has and k == "$0->hist[($0->hist_u-1)].seq":
-                    verdicts.add(("ok", k))
-                elif (not has) and k == "$0->useq_last":
-                    verdicts.add(("ok", k))
-                else:
-                    verdicts.add(("bad" if e is not None and e["k"] in ("member", "int") else "und", k))
-            if any(v[0] == "bad" for v in verdicts):
-                ctx.violation("lbuf_seq", "seq of undo position",
-                              "expected hist[hist_u-1].seq when the log has an entry below the cursor and "
-                              "useq_last otherwise, found %s" % sorted(v[1] for v in verdicts if v[0] == "bad"),
-                              sq.loc(r))
-            elif any(v[0] == "und" for v in verdicts):
-                ctx.inconclusive("lbuf_seq", "seq of undo position",
-                                 "unrecognised form %s" % sorted(str(v[1]) for v in verdicts if v[0] == "und"), sq.loc(r))
-            elif verdicts:
-                ctx.ok("lbuf_seq", "seq of undo position", loc=sq.loc(r))
-        if not n_paths:
-            ctx.broken("lbuf_seq has no returning path")
+            judge("lbuf_saved", sv, n, seq_cases(sv, n, rhs, "the number recorded at the save"), "recorded number")
+    md = prog.func("lbuf_modified")
+    nret = 0
+    for r in md.cfg.return_nodes():
+        e = strip_casts(resolve_local(md, r.get("e"))) if r.get("e") is not None else None
+        if e is None or e["k"] != "bin" or e["op"] not in ("!=", "=="):
+            ctx.violation("lbuf_modified", "dirty test", "the return value %s is not a comparison with the saved "
+                          "number" % (key(e) if e is not None else "(none)"), md.loc(r))
+            continue
+        sides = [strip_casts(e["l"]), strip_casts(e["r"])]
+        zs_ = [x for x in sides if x["k"] == "member" and x["field"] == "useq_zero"]
+        other = [x for x in sides if not (x["k"] == "member" and x["field"] == "useq_zero")]
+        if len(zs_) != 1 or len(other) != 1 or e["op"] != "!=":
+            ctx.violation("lbuf_modified", "dirty test", "the return value %s is not `<seq of the undo position> != "
+                          "useq_zero`" % key(e), md.loc(r))
+            continue
+        nret += 1
+        judge("lbuf_modified", md, r, seq_cases(md, r, other[0], "the number compared with the saved one"), "compared number")
+    if not nret:
+        ctx.broken("lbuf_modified: no return compares with useq_zero")
 
 
 def effect_callees(prog, targets, stop=("ex_command",), edge_ok=None):
@@ -710,79 +715,57 @@ def rule_U3(ctx):
 
 
 def rule_U4(ctx):
+    """A new edit cuts the redo branch: when lbuf_opt returns, the log holds exactly the entries
+    below the old undo cursor plus the new one, and the cursor is at its head -- hist_n ==
+    (hist_u on entry) + 1 and hist_u == hist_n on every path, helpers of the same file that
+    store the history fields substituted by their exit summaries."""
     ctx.begin("U4", floor=1, what="redo branch cut in lbuf_opt")
+    from ..bounds import path_states
+    from ..lin import Lin, prove_le, PROVEN
     prog = ctx.prog
     top = prog.func("lbuf_opt")
-    # lbuf_opt itself or a helper of the same file it calls may hold the cut
-    cands = [top]
-    for c in top.calls(None):
-        g = prog.resolve(top, c.get("fn")) if c.get("fn") else None
-        if g is not None and g.file == top.file and g not in cands:
-            cands.append(g)
+    P = top.params[0]["name"]
+    HN, HU, HS = "%s->hist_n" % P, "%s->hist_u" % P, "%s->hist_sz" % P
+    HF = ("hist_n", "hist_u", "hist_sz", "hist")
 
-    def cut_of(g):
-        for n, lv, op, rhs in stores(g.body):
-            if op == "=" and lv["k"] == "member" and lv["field"] == "hist_n" and rhs is not None \
-                    and strip_casts(rhs)["k"] == "member" and strip_casts(rhs)["field"] == "hist_u":
-                return n
+    def inl(call, depth=[0]):
+        g = prog.resolve(top, call["fn"]) if call.get("fn") else None
+        if g is None or g.file != top.file or g is top:
+            return None
+        if any(lv["k"] == "member" and lv["field"] in HF for n, lv, op, rhs in stores(g.body)):
+            return (g, {"inline": inl})
         return None
-
-    def uses_of(g):
-        uses = []
-        for n in g.walk():
-            if n["k"] == "sub" and n["base"]["k"] == "member" and n["base"]["field"] == "hist" \
-                    and any(m["k"] == "member" and m["field"] == "hist_n" for m in walk(n["idx"])):
-                par = g.nodes.get(g.parent.get(n["id"]))
-                if par and par["k"] == "un" and par["op"] == "&":
-                    uses.append(n)
-        for n, lv, op, rhs in stores(g.body):
-            if lv["k"] == "member" and lv["field"] == "hist_n" and op in ("pre++", "post++", "+="):
-                uses.append(n)
-        return uses
-
-    holder = None
-    for g in cands:
-        if cut_of(g) is not None:
-            holder = g
-            break
-    if holder is None:
+    init = [Lin({HU: 1}), Lin({HN: 1}) - Lin({HU: 1}), Lin({HS: 1}) - Lin({HN: 1})]
+    try:
+        sts = path_states(top, "exit", inline=inl, init_hyps=init)
+    except OverflowError:
+        raise AnalysisBroken("lbuf_opt: too many paths")
+    if not sts:
+        raise AnalysisBroken("lbuf_opt: no path to the exit")
+    bad = und = None
+    for subst, hyps, items in sts:
+        N = subst.get(HN, Lin({HN: 1}))
+        U = subst.get(HU, Lin({HU: 1}))
+        want = Lin({HU: 1}) + Lin(k=1)
+        ok = N is not None and U is not None and \
+            prove_le(N, want, hyps) == PROVEN and prove_le(want, N, hyps) == PROVEN and \
+            prove_le(U, N, hyps) == PROVEN and prove_le(N, U, hyps) == PROVEN
+        if not ok:
+            if "__havoc__" in subst or "__callhavoc__" in subst or N is None or U is None:
+                und = (N, U)
+            else:
+                bad = (N, U)
+    if bad:
         ctx.violation("lbuf_opt", "redo branch cut",
-                      "no store hist_n = hist_u: entries above the undo cursor survive a new edit")
-        return
-    f = holder
-    cut = cut_of(f)
-    n_uses = 0
-    for g in cands:
-        for u in uses_of(g):
-            n_uses += 1
-            if g is f:
-                good = f.cfg.dominates(cut, u)
-            elif g is top:
-                good = any(top.cfg.dominates(c, u) for c in top.calls(f.name))
-            else:
-                good = None
-            if good:
-                ctx.ok(g.name, "cut dominates new entry", loc=g.loc(u))
-            elif good is None:
-                ctx.inconclusive(g.name, "redo branch cut", "new entry taken in another helper", g.loc(u))
-            else:
-                ctx.violation(g.name, "redo branch cut",
-                              "the new log entry is taken before hist_n = hist_u", g.loc(u))
-    if not n_uses:
-        raise AnalysisBroken("lbuf_opt: new entry slot &hist[hist_n] not found")
-    if f is not top and not list(top.calls(f.name)):
-        raise AnalysisBroken("lbuf_opt does not call %s" % f.name)
-    # the freed range is [hist_u, hist_n)
-    freed = False
-    for lp in f.walk():
-        if lp["k"] == "for" and any(is_call(c, "lopt_done") for c in calls_in(lp["body"])):
-            init, c = lp.get("init"), lp.get("c")
-            if init and c and "hist_u" in key(init) and "hist_n" in key(c):
-                freed = True
-    if freed:
-        ctx.ok(f.name, "entries [hist_u, hist_n) are released before the cut")
+                      "on a path lbuf_opt returns with hist_n = %s and hist_u = %s (in terms of the values on entry); "
+                      "a new edit must leave exactly the entries below the undo cursor plus its own: hist_n = hist_u "
+                      "+ 1 and the cursor at the head, otherwise undone entries survive and a later redo replays "
+                      "them over the new text" % bad, top.loc(top.body))
+    elif und:
+        ctx.inconclusive("lbuf_opt", "redo branch cut", "the history fields after a helper are not summarised (%s, %s)" % und,
+                         top.loc(top.body))
     else:
-        ctx.note("release loop over [hist_u, hist_n) not recognised (leak only, not armed)")
+        ctx.ok("lbuf_opt", "hist_n == hist_u(entry) + 1 and hist_u == hist_n on all %d paths" % len(sts))
 
 
 RULES = {"S1": rule_S1, "S2": rule_S2, "S4": rule_S4,
